@@ -1,6 +1,11 @@
 (* C14 - Shared / non-shared session policy is enforced.
    Only property theorems here, each closed by [exact] of a lemma proved in Session/SharingProofs.v.
-   Model: Session/Sharing.v (mirror of the decision at the end of rfbProcessClientInitMessage). *)
+   Model: Session/Sharing.v (mirror of the decision at the end of rfbProcessClientInitMessage).
+   Configuration mirrored: the pthread build (LIBVNCSERVER_HAVE_LIBPTHREAD) with backgroundLoop = FALSE,
+   i.e. the application-driven rfbProcessEvents loop: there the client iterator skips clients whose
+   sock < 0 (rfbserver.c rfbClientIteratorNext) and rfbCloseClient sets sock = -1 at once.  In a build
+   without thread support a closed but not yet reaped RFB_NORMAL client would still be counted by the
+   dontDisconnect loop; with backgroundLoop = TRUE two ClientInits can race (C13).  Neither is covered. *)
 From Coq Require Import List Bool Arith ZArith.
 From LV Require Import Session.Sharing Session.SharingProofs.
 Import ListNotations.
@@ -32,7 +37,10 @@ Theorem C14_shared_never_disconnects : forall fl l i c shared,
   nth_error l' i = Some (joined c) /\ (forall j, j <> i -> nth_error l' j = nth_error l j).
 Proof. exact shared_never_disconnects. Qed.
 
-(* a never-shared screen never serves two fully connected inbound clients at once: every history *)
+(* a never-shared screen never serves two fully connected inbound clients at once: every history.
+   The flags [fl] are FIXED for the whole run (a screen whose neverShared is switched on later is not
+   covered), and the theorem speaks about the states after each complete op, i.e. after each complete
+   pump of the event loop (the proof, handle_one_count, establishes the bound after every single event too). *)
 Theorem C14_nevershared_at_most_one : forall fl ops, f_never fl = true ->
   count_inbound_normal (run fl [] ops) <= 1.
 Proof. exact nevershared_at_most_one. Qed.
